@@ -25,6 +25,11 @@ pub open spec fn is_ws(c: u8) -> bool { c == 0x20 || c == 0x0a || c == 0x0d || c
 
 pub assume_specification [u8::is_ascii_digit] (c: &u8) -> (r: bool)
     ensures r == is_digit(*c);
+pub open spec fn is_hex_digit(c: u8) -> bool {
+    (0x30 <= c <= 0x39) || (0x41 <= c <= 0x46) || (0x61 <= c <= 0x66)
+}
+pub assume_specification [u8::is_ascii_hexdigit] (c: &u8) -> (r: bool)
+    ensures r == is_hex_digit(*c);
 
 // ---- bit helpers
 pub open spec fn bit32(m: u32, j: int) -> bool { 0 <= j < 32 && ((m >> (j as u32)) & 1u32) == 1u32 }
